@@ -128,6 +128,10 @@ func cond(cluster, inst string, ver int32) *proxyv1alpha1.RateLimitCondition {
 	c := &proxyv1alpha1.RateLimitCondition{ObjectMeta: metav1.ObjectMeta{Name: cluster + "." + inst}}
 	c.Spec.UpstreamCluster = cluster
 	c.Spec.Instance = inst
+	if inst == "state" {
+		// the per-upstream state condition the limiter keeps next to the instances' conditions: it belongs to no instance
+		c.Spec.Instance = ""
+	}
 	c.Spec.LimitItemConfigurations = []proxyv1alpha1.RateLimitItemConfiguration{{Name: "s", LimitItemDetail: proxyv1alpha1.LimitItemDetail{MaxRequestsInflight: &proxyv1alpha1.MaxRequestsInflightFlowControlSchema{Max: ver}}}}
 	return c
 }
@@ -225,7 +229,7 @@ func genHistory(t *rapid.T, own, foreign []string) []op {
 	for i := 0; i < n; i++ {
 		k := rapid.IntRange(0, 9).Draw(t, fmt.Sprintf("op[%d]", i))
 		cl := rapid.SampledFrom(own).Draw(t, "cluster")
-		inst := rapid.SampledFrom([]string{"i1", "i2"}).Draw(t, "inst")
+		inst := rapid.SampledFrom([]string{"i1", "i2", "state"}).Draw(t, "inst")
 		switch {
 		case k < 5:
 			ver++
